@@ -8,7 +8,8 @@
  *        prints "litmus kind=<k> rounds=<n> both_zero=<c>"; exit 0 always (the driver judges)
  *
  * modes: 0 sum conservation over add/sub/inc/dec/add_return/sub_return, 1 add_return(+1) results all distinct, 2 xchg token conservation,
- *        3 cmpxchg-loop increments, 4 and/or bit ownership.
+ *        3 cmpxchg-loop increments, 4 and/or bit ownership, 5 test-and-set lock built from uatomic_cmpxchg(&w, 0, id) / uatomic_set(&w, 0)
+ *        protecting a plain counter (a cmpxchg that reports success without having stored breaks mutual exclusion).
  * The barrier used to start threads and the bookkeeping use compiler __atomic builtins directly, never the macros under test.
  */
 #define _GNU_SOURCE
@@ -47,6 +48,7 @@ struct tstate {
 	char err[256];
 };
 static struct tstate ts[MAXTH];
+static volatile long protected_ctr[MAXLOC]; static volatile int inside[MAXLOC]; static long acquisitions[MAXTH][MAXLOC];
 
 static uint64_t maskw(int w) { return w == 8 ? ~0ull : (1ull << (8 * w)) - 1; }
 static inline uint64_t lcg(uint64_t *s) { *s = *s * 6364136223846793005ull + 1442695040888963407ull; return *s >> 33; }
@@ -105,6 +107,20 @@ static void *worker(void *arg)
 					for (;;) { old = uatomic_read(p); if (uatomic_cmpxchg(p, old, (T)(old + 1)) == old) break; me->cas_fail++; }
 				})
 				break;
+			case 5:
+				DISPATCH(l, {
+					T *p = ADDR(T, l); T id = (T)(me->id + 1);
+					if ((i & 7) == 0) {	/* every 8th iteration: keeps contention on the other operands of the word high as well */
+						while (uatomic_cmpxchg(p, (T)0, id) != (T)0) caa_cpu_relax();
+						if (uatomic_read(p) != id) { snprintf(me->err, sizeof me->err, "location %d: uatomic_cmpxchg(&w, 0, %d) reported success but the word holds %ld", k, (int)id, (long)uatomic_read(p)); break; }
+						if (__atomic_fetch_add(&inside[k], 1, __ATOMIC_ACQ_REL) != 0) { snprintf(me->err, sizeof me->err, "location %d: two threads are inside the critical section protected by a uatomic_cmpxchg test-and-set lock", k); break; }
+						protected_ctr[k] = protected_ctr[k] + 1;
+						acquisitions[me->id][k]++;
+						__atomic_fetch_sub(&inside[k], 1, __ATOMIC_ACQ_REL);
+						uatomic_set(p, (T)0);
+					}
+				})
+				break;
 			case 4:
 				DISPATCH(l, {
 					T *p = ADDR(T, l); T bit = (T)((T)1 << (me->id % (8 * l->w)));
@@ -144,7 +160,7 @@ static int do_run(int argc, char **argv)
 	mem.word = 0xc3c3c3c3c3c3c3c3ull;	/* bytes not covered by any location must stay like this */
 	for (int k = 0; k < nloc; k++) {
 		struct loc *l = &locs[k];
-		l->init = (l->mode == 2 || l->mode == 4) ? 0 : lcg(&rng) * 0x10001 & maskw(l->w);
+		l->init = (l->mode == 2 || l->mode == 4 || l->mode == 5) ? 0 : lcg(&rng) * 0x10001 & maskw(l->w);
 		if (l->mode == 4) l->init = 0;
 		memcpy((char *)&mem.word + l->off, &l->init, l->w);
 		if (l->mode == 1 && l->w == 1 && (long)nthreads * iters > 255) { /* all results must be distinct: shorten */ }
@@ -186,6 +202,9 @@ static int do_run(int argc, char **argv)
 		} else if (l->mode == 3) {
 			uint64_t want = (l->init + (uint64_t)nthreads * iters) & m;
 			if (fin != want) { printf("VIOLATION location %d (type %d, byte %d): %d threads x %ld successful cmpxchg increments from 0x%llx give 0x%llx, expected 0x%llx\n", k, l->type, l->off, nthreads, iters, (unsigned long long)l->init, (unsigned long long)fin, (unsigned long long)want); bad = 1; }
+		} else if (l->mode == 5) {
+			long acq = 0; for (int t = 0; t < nthreads; t++) acq += acquisitions[t][k];
+			if (fin != 0 || protected_ctr[k] != acq) { printf("VIOLATION location %d (type %d, byte %d): test-and-set lock built from uatomic_cmpxchg: %ld acquisitions but the protected counter is %ld (final lock word 0x%llx)\n", k, l->type, l->off, acq, (long)protected_ctr[k], (unsigned long long)fin); bad = 1; }
 		} else if (l->mode == 4) {
 			if (fin != 0) { printf("VIOLATION location %d (type %d, byte %d): every owner cleared its bit, final value 0x%llx\n", k, l->type, l->off, (unsigned long long)fin); bad = 1; }
 		}
@@ -213,6 +232,11 @@ static inline void rmw(long *z, int *w)
 	case 2: (void) uatomic_cmpxchg(z, uatomic_read(z), 5L); break;	/* single writer of z: always succeeds */
 	case 3: (void) uatomic_add_return(z, 3L); break;
 	case 4: (void) uatomic_sub_return(z, 3L); break;
+	case 9: (void) uatomic_add_return(z, 0L); break;	/* the "read with a full barrier" idiom */
+	case 10: (void) uatomic_sub_return(z, 0L); break;
+	case 11: (void) uatomic_add_return(w, 0); break;
+	case 12: { long cur = uatomic_read(z); (void) uatomic_cmpxchg(z, cur, cur); break; }	/* successful cmpxchg that stores the same value */
+	case 13: (void) uatomic_xchg(z, uatomic_read(z)); break;	/* xchg of the value already there */
 	case 5: (void) uatomic_xchg(w, 1); break;
 	case 6: (void) uatomic_cmpxchg(w, uatomic_read(w), 5); break;
 	case 7: (void) uatomic_add_return(w, 3); break;
@@ -238,9 +262,9 @@ static void *lit_thread(void *arg)
 }
 static int do_litmus(int argc, char **argv)
 {
-	static const char *kinds[] = { "none", "xchg", "cmpxchg", "add_return", "sub_return", "xchg32", "cmpxchg32", "add_return32", "sub_return32" };
+	static const char *kinds[] = { "none", "xchg", "cmpxchg", "add_return", "sub_return", "xchg32", "cmpxchg32", "add_return32", "sub_return32", "add_return_zero", "sub_return_zero", "add_return32_zero", "cmpxchg_same", "xchg_same" };
 	if (argc < 4) return 2;
-	lit_kind = -1; for (int i = 0; i < 9; i++) if (!strcmp(argv[2], kinds[i])) lit_kind = i;
+	lit_kind = -1; for (int i = 0; i < 14; i++) if (!strcmp(argv[2], kinds[i])) lit_kind = i;
 	if (lit_kind < 0) return 2;
 	lit_rounds = atol(argv[3]);
 	pthread_t a, b;
